@@ -42,7 +42,7 @@ CHECKS = {
         "regex -> z3 compilation (E-RX) of the built master regex: per-rule verification conditions (non-empty matches, newline containment, reference literal grammars included in the right class under first-match, keywords, maximal munch) decided by z3; CrossHair symbolic execution of every t_* body (symbolic text, symbolic line counter) and of _fill_tokbuf over a stub lexer",
         "Each VC is decided by z3 for all code-point strings up to the bound at a token start with arbitrary right context; the rule functions are confirmed by CrossHair over all paths "
         "for all texts of the rule's language up to the length bound and all line numbers; _fill_tokbuf is confirmed against a reference over all raw token strings up to the bound.",
-        "Bound: 6 (quick) / 9 (thorough) code points per VC, rule texts <=5..14 characters (rules whose message formatting forks per text are confirmed over a superset: any text, or an opaque text that can only be formatted), _fill_tokbuf <=4 / <=6 raw tokens over 9 kinds. Literals longer than the bound are covered only "
+        "Bound: 6 (quick) / 9 (thorough) code points per VC, rule texts <=5..14 characters (rules whose message formatting forks per text are confirmed over a superset: any text, or an opaque text that can only be formatted), _fill_tokbuf <=4 / <=5 raw tokens over 9 kinds. Literals longer than the bound are covered only "
         "by the inductive shape of the VCs. Reference grammars = C++ lexical grammar restricted to the forms the property lists. Trusted: translator (validated every run), z3, CrossHair.",
         "DESIGN.md 3/C08",
     ),
@@ -132,14 +132,14 @@ CHECKS = {
         "CrossHair (z3) exhaustive exploration of (a) all doc-comment token buffers through the real get_doxygen over a stub lexer and (b) all ordered pairs of declaration kinds x comment arrangements in namespace and class context through parse_string; three-valued oracle written from the statement",
         "Kernel: every token buffer inside the bound is run through the real get_doxygen and compared with 'the documentation comments of the block that immediately precedes the first real token'. "
         "Hand-over: every ordered pair (kind, arrangement) x (kind, arrangement) is parsed and judged: must-be-X / must-be-None / unspecified per declaration plus the universal clauses (no text twice, never a second declarator, nothing across blank line / access specifier / block boundary, plain comments contribute nothing).",
-        "Bound: kernel buffers <=5 (quick) / 7 (thorough) tokens over 8 kinds; 13 namespace-level, 10 class-level and 5 enumerator kinds x 14 arrangements, pairs only. Cases the statement leaves open are not asserted (listed in evidence assumptions). D18a/D18b (trailing scan across tokens) are known findings matched by shape.",
+        "Bound: kernel buffers <=5 (quick) / 6 (thorough) tokens over 8 kinds; 13 namespace-level, 10 class-level and 5 enumerator kinds x 14 arrangements, pairs only. Cases the statement leaves open are not asserted (listed in evidence assumptions). D18a/D18b (trailing scan across tokens) are known findings matched by shape.",
         "DESIGN.md 3/C11",
     ),
     "C09": (
         "model_checking",
         "regex -> z3 (E-RX): for solver-chosen token classes a, b and every layout string, lex(a + layout + b) = a, discardables, b; CrossHair (z3) exhaustive exploration of program x token gap x layout (x second gap) through parse_string against the baseline result; comment extents decided by z3 for all strings; directive lines with trailing / inner comments and commented declaration lines before a directive",
         "Layer L: z3 decides for all code-point strings inside the bound that no pair of stream tokens separated by a layout string lexes differently. Layers S+P: every program of the pool, every token gap (from the real lexer's offsets) and every layout string is parsed and compared with the baseline; 'Confirmed over all paths' = exhausted.",
-        "Bound: layer L 2 tokens <=3 (quick) / 5 (thorough) code points x 10 layouts; comment extents for all strings of 2..8 / 10 code points; 56 programs x all gaps x 17 layouts (thorough: two gaps at once). No documentation comments in the programs (C11). D9/D10 (comment at the end of a #pragma / #include line) are known findings.",
+        "Bound: layer L 2 tokens <=3 (quick) / 5 (thorough) code points x 10 layouts; comment extents for all strings of 2..8 / 10 code points; 56 programs x all gaps x 17 layouts (thorough: two gaps at once, the second among the next three gaps). No documentation comments in the programs (C11). D9/D10 (comment at the end of a #pragma / #include line) are known findings.",
         "DESIGN.md 3/C09",
     ),
     "C06": (
@@ -149,7 +149,7 @@ CHECKS = {
         "Tokens: EVERY token sequence inside the bound over one spelling per class of token types parser.py can tell apart (plus compared values and lexer-error spellings) returns or raises CxxParseError with prefix '<file>:<existing line>: ' and a cause - so the except block itself never raises. "
         "Illegal characters: z3 shows that every code point outside the C++ basic source character set enters t_error at a token start and that only literal / comment / directive rules can contain one. "
         "Rejection: 54 rule-breaking constructs in 7 block contexts x 6 #line preambles (the reported file:line must be one a physical line has under a reference reading of the directives); truncation of 56 programs at every token boundary.",
-        "Bound: lexer n<=5 (quick) / 8 (thorough) code points; sequences <=2 tokens over the ~100-spelling reduced alphabet and <=3 over a 33-spelling core (thorough 3 / 4). Tokens are rendered blank/newline separated. BaseException and resource exhaustion are outside.",
+        "Bound: lexer n<=5 (quick) / 8 (thorough) code points; sequences <=2 tokens over the ~100-spelling reduced alphabet and <=3 over a 34-spelling core (thorough 3 / 3). Tokens are rendered blank/newline separated. BaseException and resource exhaustion are outside.",
         "DESIGN.md 3/C06",
     ),
     "C15": (
@@ -164,7 +164,7 @@ CHECKS = {
         "CrossHair (z3) exhaustive exploration of C++-legal type trees x 11 declaration contexts printed by an independent inside-out printer, of ALL declarator token strings against a reference declarator parser, and of template-argument pairs (stream restoration, type/value classification), on the real parser",
         "Every legal tree up to the depth bound in every context must decode to exactly the generator's tree and name; every token string the reference declarator parser accepts must yield its tree; "
         "after every parse the swapped token stream is restored and type-ids are types. 'Confirmed over all paths' = the bounded space was exhausted.",
-        "Bound: depth <=2 (quick) / 3 (thorough) over 7 base types and 12 wrappers; token strings <=4 / 6 over 11 token kinds; 29 x 29 template-argument pairs. Member pointers are outside (documented TODO of the parser). "
+        "Bound: depth <=2 (quick) / 3 (thorough) over 7 base types and 12 wrappers; token strings <=4 / 5 over 11 token kinds; 29 x 29 template-argument pairs. Member pointers are outside (documented TODO of the parser). "
         "D20 (array / parenthesised type-ids as template arguments) and D22 (nested redundant parentheses) are known findings matched by class.",
         "DESIGN.md 3/C02",
     ),
